@@ -28,10 +28,11 @@ use futures_util::{StreamExt, TryStreamExt};
 use super::proto::*;
 use crate::{
     ff::{
-        Field, Fp31, Fp32BitPrime, Fp61BitPrime, Gf2, Gf3Bit, Gf8Bit, Gf9Bit, Gf20Bit,
+        Field, Serializable, Fp31, Fp32BitPrime, Fp61BitPrime, Gf2, Gf3Bit, Gf8Bit, Gf9Bit, Gf20Bit,
         Gf32Bit, Gf40Bit, U128Conversions,
         boolean::Boolean,
         boolean_array::{BA3, BA5, BA8, BA16, BA20, BA32, BA64},
+        ec_prime_field::Fp25519,
     },
     helpers::Role,
     protocol::{
@@ -41,6 +42,7 @@ use crate::{
         context::{Context, TEST_DZKP_STEPS, UpgradableContext, dzkp_validator::DZKPValidator},
         ipa_prf::{
             aggregation::aggregate_values,
+            boolean_ops::convert_to_fp25519,
             boolean_ops::{
                 addition_sequential::{integer_add, integer_sat_add},
                 comparison_and_subtraction_sequential::{
@@ -449,6 +451,48 @@ fn agg_dispatch(req: &str, mode: &str, b: usize, w: usize, tv: usize, rows: &[Ve
     }
 }
 
+
+// ---------------------------------------------------------------- bit-to-field share conversion (256 lanes -> 16 x 16)
+macro_rules! conv_fn {
+    ($fname:ident, $method:ident, $chunk:expr) => {
+        fn $fname(req: &str, bits: usize, xs: &[u128]) -> String {
+            let used = xs.len().min(256);
+            let xb = lanes::<256>(bits, xs);
+            let res = block_on_timeout(RUN_TIMEOUT_S + 5, async {
+                let w = world(req);
+                w.$method(xb, |ctx, x: BitDecomposed<AdditiveShare<Boolean, 256>>| async move {
+                    let c_ctx = ctx.set_total_records(1);
+                    let validator = &c_ctx.dzkp_validator(TEST_DZKP_STEPS, $chunk);
+                    let m_ctx = validator.context();
+                    convert_to_fp25519::<_, 256, 16>(m_ctx, RecordId::FIRST, x).await.unwrap()
+                })
+                .await
+            });
+            let res = match res {
+                Ok(r) => r,
+                Err(e) => return e,
+            };
+            let mut vals: Vec<String> = vec![];
+            let mut ok = res[0].len() == 16 && res[1].len() == 16 && res[2].len() == 16;
+            for i in 0..res[0].len() {
+                let (arr, c) = recon::<Fp25519, 16>([&res[0][i], &res[1][i], &res[2][i]]);
+                ok &= c;
+                for v in arr.into_iter() {
+                    let mut buf = generic_array::GenericArray::<u8, <Fp25519 as Serializable>::Size>::default();
+                    v.serialize(&mut buf);
+                    // canonical little-endian bytes; inputs are < 2^127, so a correct result fits 16 bytes
+                    let lo = u128::from_le_bytes(buf[..16].try_into().unwrap());
+                    let hi = u128::from_le_bytes(buf[16..32].try_into().unwrap());
+                    vals.push(if hi == 0 { lo.to_string() } else { format!("big{}", hex(&buf)) });
+                }
+            }
+            format!("{} {}", vals[..used.min(vals.len())].join(","), flag(ok))
+        }
+    };
+}
+conv_fn!(conv_sh, semi_honest, crate::protocol::hybrid::oprf::conv_proof_chunk());
+conv_fn!(conv_mal, malicious, 1);
+
 pub fn exec(req: &str) -> String {
     let t: Vec<&str> = req.split(' ').collect();
     let l = |s: &str| parse_nat_list::<u128>(s);
@@ -468,6 +512,11 @@ pub fn exec(req: &str) -> String {
         },
         "c07.satsub" => ba_dispatch(req, "satsub", t[1], u(t[2]), &[], &l(t[3]), &l(t[4])),
         "c07.select" => ba_dispatch(req, "select", t[1], u(t[2]), &l(t[3]), &l(t[4]), &l(t[5])),
+        "c07.conv" => match t[1] {
+            "sh" => conv_sh(req, u(t[2]), &l(t[3])),
+            "mal" => conv_mal(req, u(t[2]), &l(t[3])),
+            m => panic!("harness: unknown mode {m}"),
+        },
         "c07.agg" => {
             let rows: Vec<Vec<u128>> = if t[5] == "-" { vec![] } else { t[5].split('/').map(l).collect() };
             agg_dispatch(req, t[1], u(t[2]), u(t[3]), u(t[4]), &rows)
@@ -775,4 +824,25 @@ fn verif_c07_fields() {
 #[test]
 fn verif_c07_agg() {
     run_suite("c07_agg", |rng, th| { let mut o = vec![]; gen_agg(rng, th, &mut o); o }, exec);
+}
+
+fn gen_conv(rng: &mut Rng, thorough: bool, out: &mut Vec<String>) {
+    // (bits, mode): the production width is 64; 127 is the largest width the debug_assert admits
+    let mut shapes: Vec<(usize, &str)> = vec![(64, "sh"), (64, "mal"), (127, "sh"), (1, "sh"), (8, "mal")];
+    if thorough {
+        shapes.extend([(127, "mal"), (32, "sh"), (100, "mal"), (0, "sh")]);
+    }
+    for (bits, mode) in shapes {
+        let mut xs = boundary_vals(bits);
+        xs.truncate(200);
+        while xs.len() < 256 {
+            xs.push(rand_bits(rng, bits));
+        }
+        out.push(format!("c07.conv {mode} {bits} {}", nat_list(&xs)));
+    }
+}
+
+#[test]
+fn verif_c07_conv() {
+    run_suite("c07_conv", |rng, th| { let mut o = vec![]; gen_conv(rng, th, &mut o); o }, exec);
 }
